@@ -192,6 +192,23 @@ Example C07_example_css :
   List.length bounded_spec_lists = 160 + 6400 + 512 /\ List.length layouts = 12.
 Proof. vm_compute. repeat split; reflexivity. Qed.
 
+(* junk or a broken declaration before the first declaration, between two, after the last:
+   parse errors, hence the css error (the guard `end > 0` only exempts the text before the
+   first declaration from the missing-semicolon rule, not from validation) *)
+Example C07_example_css_junk :
+  let r := s "width: 20ch; height: 280px;" in
+  let err := Ok [lit_issue y_css_spec (PInt 0)] in
+  parse_css_spec (s "junk width: 20ch; height: 280px") =
+    Ok (Some [(s "width", s "ch"); (s "height", s "px")], Some [(0, CssBadContent)]) /\
+  maybe_style r (s "junk width: 20ch; height: 280px") = err /\
+  maybe_style r (s "width: 20; height: 280px") = err /\
+  maybe_style r (s "color: red; width: 20ch; height: 280px") = err /\
+  maybe_style r (s "width: 20ch; line-height: 2em; height: 280px") = err /\
+  maybe_style r (s "width: 20ch; height: 280px; junk") = err /\
+  maybe_style r (s "width: 20ch height: 280px") = err /\
+  maybe_style r (s " width: 20ch; height: 280px") = Ok [].
+Proof. vm_compute. repeat split; reflexivity. Qed.
+
 (* ---- the property's grammar is too generous -------------------------------------------------------------------------
    "character references to anything but & and <" are not all harmless: the second document
    makes expat read the REPLACEMENT TEXT of the entity, in which character references are
